@@ -53,7 +53,16 @@ type A8Owner struct {
 	Langs     []A8Lang `gorm:"many2many:a8_owner_langs"`
 	Clubs     []A8Club `gorm:"many2many:a8_owner_clubs"`
 	Teams     []A8Team `gorm:"many2many:a8_memberships"`
+	HomeID    uint    // (not a pointer: with a *uint key, Association().Unscoped().Replace(new) on the unchanged tree deletes the NEW home —
+	Home      *A8Home //  the recorded old key aliases the field that is overwritten; link algebra, C12's subject) belongs-to, zeroValue mode
 	DeletedAt gorm.DeletedAt
+}
+
+// the belongs-to side: the OWNER row carries the key; Association().Unscoped() asks for the old home to be deleted
+type A8Home struct {
+	ID        uint `gorm:"primaryKey"`
+	V         int
+	DeletedAt gorm.DeletedAt `gorm:"zeroValue:1970-01-01 00:00:01;default:'1970-01-01 00:00:01'"`
 }
 type A8Pet struct {
 	ID        uint `gorm:"primaryKey"`
@@ -118,7 +127,7 @@ type A8Membership struct {
 
 type c08Rel8 struct {
 	Name    string
-	Kind    string // hasmany hasone m2m
+	Kind    string // hasmany hasone m2m belongsto
 	Table   string
 	FK      string // owner key column of the target table ("" for m2m)
 	Poly    bool
@@ -158,6 +167,7 @@ var c08Rels8 = func() []c08Rel8 {
 		mk("Badge", "hasone", "a8_badges", "subject_id", "null", "deleted_at", true, func(v int) interface{} { return &A8Badge{V: v} }, func(id uint) interface{} { return &A8Badge{ID: id} }, func() interface{} { return &[]A8Badge{} }),
 		mk("Langs", "m2m", "a8_langs", "", "null", "deleted_at", false, func(v int) interface{} { return &A8Lang{V: v} }, func(id uint) interface{} { return &A8Lang{ID: id} }, func() interface{} { return &[]A8Lang{} }),
 		mk("Clubs", "m2m", "a8_clubs", "", "zero", "deleted_at", false, func(v int) interface{} { return &A8Club{V: v} }, func(id uint) interface{} { return &A8Club{ID: id} }, func() interface{} { return &[]A8Club{} }),
+		mk("Home", "belongsto", "a8_homes", "", "zero", "deleted_at", false, func(v int) interface{} { return &A8Home{V: v} }, func(id uint) interface{} { return &A8Home{ID: id} }, func() interface{} { return &[]A8Home{} }),
 		mk("Teams", "m2m", "a8_teams", "", "null", "deleted_at", false, func(v int) interface{} { return &A8Team{V: v} }, func(id uint) interface{} { return &A8Team{ID: id} }, func() interface{} { return &[]A8Team{} }),
 	}
 	for i := range rs {
@@ -209,6 +219,23 @@ func c08DumpT(db *gorm.DB, rel c08Rel8) []c08TRow {
 }
 
 func c08DumpL(db *gorm.DB, rel c08Rel8) []c08Link {
+	if rel.Kind == "belongsto" {
+		// the links of a belongs-to relation live in the owner rows
+		var out []c08Link
+		rows, err := db.Session(&gorm.Session{NewDB: true}).Raw("SELECT id, home_id FROM a8_owners WHERE COALESCE(home_id, 0) <> 0 ORDER BY id").Rows()
+		if err != nil {
+			panic(err)
+		}
+		defer rows.Close()
+		for rows.Next() {
+			l := c08Link{Live: true}
+			if err := rows.Scan(&l.Owner, &l.Rel); err != nil {
+				panic(err)
+			}
+			out = append(out, l)
+		}
+		return out
+	}
 	if rel.Join == "" {
 		return nil
 	}
@@ -236,7 +263,7 @@ func c08AssocSeed(db *gorm.DB, rng *rand.Rand) (owners []uint) {
 	if err := db.SetupJoinTable(&A8Owner{}, "Teams", &A8Membership{}); err != nil {
 		panic(err)
 	}
-	if err := db.AutoMigrate(&A8Owner{}, &A8Pet{}, &A8Cat{}, &A8Den{}, &A8Chip{}, &A8Note{}, &A8Badge{}, &A8Lang{}, &A8Club{}, &A8Team{}, &A8Membership{}); err != nil {
+	if err := db.AutoMigrate(&A8Owner{}, &A8Pet{}, &A8Cat{}, &A8Den{}, &A8Chip{}, &A8Note{}, &A8Badge{}, &A8Lang{}, &A8Club{}, &A8Team{}, &A8Membership{}, &A8Home{}); err != nil {
 		panic(err)
 	}
 	ex := func(q string, args ...interface{}) {
@@ -290,6 +317,16 @@ func c08AssocSeed(db *gorm.DB, rng *rand.Rand) (owners []uint) {
 					ins(o, false)
 				}
 			}
+		case "belongsto":
+			nt := 4 + rng.Intn(2)
+			for i := 0; i < nt; i++ {
+				ins(0, i%2 == 1)
+			}
+			for o := 1; o <= no; o++ {
+				if o == 1 || rng.Intn(4) > 0 {
+					ex("UPDATE a8_owners SET home_id = ? WHERE id = ?", 1+rng.Intn(nt), o)
+				}
+			}
 		case "m2m":
 			nt := 4 + rng.Intn(3)
 			for i := 0; i < nt; i++ {
@@ -333,13 +370,16 @@ func c08GenAssocCase(rng *rand.Rand, seed int64, n int) c08AssocCase {
 	c.Rel = c08Rels8[rng.Intn(len(c08Rels8))].Name
 	c.Op = []string{"find", "find-cond", "count", "clear", "clear", "replace-new", "replace-keep", "delete", "delete", "append", "preload", "joins", "innerjoins"}[rng.Intn(13)]
 	if c.Op == "joins" || c.Op == "innerjoins" {
-		c.Rel = []string{"Den", "Chip", "Badge"}[rng.Intn(3)] // association joins: to-one relations
+		c.Rel = []string{"Den", "Chip", "Badge", "Home"}[rng.Intn(4)] // association joins: to-one relations
 	}
 	if rng.Intn(2) == 0 {
 		c.DBUn = []string{"before-model", "before-model", "after-model", "session"}[rng.Intn(4)]
 	}
 	c.AssocUn = rng.Intn(2) == 0
 	c.Owners = []uint{uint(1 + rng.Intn(3))}
+	if c.Rel == "Home" && (c.Op == "replace-keep" || c.Op == "append") {
+		c.Op = "clear" // belongs-to: Append is Replace; the key lives in the owner row
+	}
 	if rng.Intn(4) == 0 && (c.Op == "find" || c.Op == "count" || c.Op == "clear" || c.Op == "delete" || c.Op == "preload" || c.Op == "joins" || c.Op == "innerjoins") {
 		c.Owners = []uint{1, uint(2 + rng.Intn(2))}
 	}
@@ -404,7 +444,14 @@ func c08AssocOne(r *Result, db *gorm.DB, c c08AssocCase, sub int64) {
 		linkLive bool
 	}
 	var targets []tgt
-	if rel.Kind == "m2m" {
+	linked := rel.Kind == "m2m" || rel.Kind == "belongsto"
+	homeOf := map[uint]uint{}
+	if rel.Kind == "belongsto" {
+		for _, l := range linksBefore {
+			homeOf[l.Owner] = l.Rel
+		}
+	}
+	if linked {
 		for _, l := range linksBefore {
 			if isOwner(l.Owner) {
 				targets = append(targets, tgt{byID[l.Rel], l.Live})
@@ -422,11 +469,19 @@ func c08AssocOne(r *Result, db *gorm.DB, c c08AssocCase, sub int64) {
 	// ---- the handle
 	var model interface{}
 	if len(c.Owners) == 1 {
-		model = &A8Owner{ID: c.Owners[0]}
+		o := &A8Owner{ID: c.Owners[0]}
+		if h, ok := homeOf[o.ID]; ok {
+			o.HomeID = h // a loaded owner: its belongs-to key is known
+		}
+		model = o
 	} else {
 		os := []A8Owner{}
 		for _, o := range c.Owners {
-			os = append(os, A8Owner{ID: o})
+			x := A8Owner{ID: o}
+			if h, ok := homeOf[o]; ok {
+				x.HomeID = h
+			}
+			os = append(os, x)
 		}
 		model = &os
 	}
@@ -595,7 +650,7 @@ func c08AssocOne(r *Result, db *gorm.DB, c c08AssocCase, sub int64) {
 	if c.Op == "preload" || c.Op == "joins" || c.Op == "innerjoins" {
 		want := map[[2]uint]bool{}
 		has := map[uint]bool{}
-		if rel.Kind == "m2m" {
+		if linked {
 			for _, l := range linksBefore {
 				if isOwner(l.Owner) && visible(tgt{byID[l.Rel], l.Live}) {
 					want[[2]uint{l.Owner, l.Rel}], has[l.Owner] = true, true
@@ -673,8 +728,8 @@ func c08AssocOne(r *Result, db *gorm.DB, c c08AssocCase, sub int64) {
 				fmt.Sscan(arg, &k)
 				ok = ok && (t.row.V <= k || t.row.V == 3)
 			}
-			if ok {
-				want = append(want, t.row.ID) // one entry per link: a target linked to two of the owners comes twice
+			if ok && !(rel.Kind == "belongsto" && seen[t.row.ID]) {
+				want = append(want, t.row.ID) // many2many: one entry per link, a target linked to two of the owners comes twice
 				seen[t.row.ID] = true
 			}
 		}
@@ -767,7 +822,7 @@ func c08AssocOne(r *Result, db *gorm.DB, c c08AssocCase, sub int64) {
 						"db.Unscoped() + Association().Unscoped()."+c.Op+": with Unscoped, Delete removes rows physically (marked rows included: they are visible again)")
 					return
 				}
-			case un && !c.AssocUn:
+			case un && !c.AssocUn && rel.Kind != "belongsto":
 				// I5: detached, marked or not
 				if present && isOwner(a.Owner) {
 					bad("I5", fmt.Sprintf("row %d of %s still carries owner %d (live=%v)", t.row.ID, rel.Table, a.Owner, a.Live), "detached",
